@@ -612,7 +612,7 @@ static void mode_lobpcg(const Desc& d)
 
 // =============================================================================================== C15: Davidson
 template <typename OpType, typename MatT>
-static void davidson_case(const Desc& d, const MatL& AL0, const char* store, int nev, int rule, double tol, int maxit, int guess, Rng& r, int init, int maxs, int corr, bool twice = false, int tri = 0)
+static void davidson_case(const Desc& d, const MatL& AL0, const char* store, int nev, int rule, double tol, int maxit, int guess, Rng& r, int init, int maxs, int corr, int twice = 0, int tri = 0)
 {
     typedef Eigen::MatrixXd Mat;
     Mat Ad = AL0.cast<double>();
@@ -632,7 +632,7 @@ static void davidson_case(const Desc& d, const MatL& AL0, const char* store, int
         // not set): the specification derives the values actually used (Davidson.tla, D_Params) and replays the JDIter hook events
         Line b("DavBegin");
         b.i("n", n).i("nev", nev).i("i0", init > 0 ? init : 2 * nev).i("m0", init > 0 ? maxs : 10 * nev).i("c0", corr > 0 ? corr : 0);
-        b.i("gcols", guess ? std::max(nev, 2) + 1 : 0);
+        b.i("gcols", (guess || twice == 2 || d.i("twice", 0) == 2) ? std::max(nev, 2) + 1 : 0);
         out().put(b);
     }
     // hook events of the Davidson loop (JDIter) go into the trace while this case runs
@@ -643,7 +643,8 @@ static void davidson_case(const Desc& d, const MatL& AL0, const char* store, int
         ~SinkGuard() { Spectra::verif::sink() = NULL; }
     } sink_guard(&jdsink);
     Line l("Dav");
-    l.str("st", store).i("n", n).i("qn", q((LD) n)).i("nev", nev).i("rule", rule).i("qtol", q((LD) tol)).i("maxit", maxit).i("guess", guess).i("init", init).i("maxs", maxs).i("corr", corr);
+    const bool twice2 = twice == 2 || d.i("twice", 0) == 2;
+    l.str("st", store).i("n", n).i("qn", q((LD) n)).i("nev", nev).i("rule", twice2 ? (rule == 3 ? 7 : 3) : rule).i("qtol", q((LD) tol)).i("maxit", maxit).i("guess", guess).i("init", init).i("maxs", maxs).i("corr", corr);
     int thr = 0;
     try
     {
@@ -674,7 +675,23 @@ static void davidson_case(const Desc& d, const MatL& AL0, const char* store, int
                 G.col(cols - 1) = 2.0 * G.col(0) + G.col(1);
             ret = (ll) s->compute_with_guess(G, (SortRule) rule, maxit, tol);
         }
-        if (d.i("twice", 0) == 1 || twice)
+        if (d.i("twice", 0) == 2 || twice == 2)
+        {
+            // history: the observed call is a compute_with_guess() with ANOTHER rule and only two iterations, on an object whose first call has
+            // (normally) ended Successful: whatever it reports describes this call
+            const int other = rule == 3 ? 7 : 3;
+            const int cols = std::max(nev, 2) + 1;
+            Mat G(n, cols);
+            for (int i = 0; i < n; i++)
+                for (int j = 0; j < cols; j++)
+                    G(i, j) = (double) r.sym();
+            Eigen::HouseholderQR<Mat> qr(G);
+            G = qr.householderQ() * Mat::Identity(n, cols);
+            (void) ret;
+            ret = (ll) s->compute_with_guess(G, (SortRule) other, 2, tol);
+            rule = other;
+        }
+        else if (d.i("twice", 0) == 1 || twice == 1)
         {
             // history: a first compute() with another rule on the same object; the observed call is the second one
             const int other = rule == 3 ? 7 : 3;
@@ -793,8 +810,34 @@ static void mode_davidson(const Desc& d)
                 if (j != pmax)
                     A(pmax, j) = A(j, pmax) = 0;
         }
-        const int nev = 1 + r.below(3);
+        int nev = 1 + r.below(3);
         int rule = d.i("dec", 0) ? 3 : rules[c % 4];
+        // c % 10 == 9: two wanted eigenvalues of nearly equal magnitude and opposite sign that converge at very different speeds - a nearly
+        // isolated diagonal entry -(top - 0.04) (converges at once) and the top eigenvalue of a long non-diagonally-dominant chain
+        // (approached slowly) - under LargestMagn: the order of the Ritz pairs changes while some are already converged
+        const bool opp = (c % 10 == 9) && !d.i("dec", 0);
+        if (opp)
+        {
+            A.setZero();
+            const int len = 15 + r.below(8);
+            const LD off = 1.0L + 0.1L * r.uni();
+            const LD top = 8.0L + 2.0L * off * std::cos(3.14159265358979323846L / (LD)(len + 1));
+            A(0, 0) = -(top - 0.04L);
+            for (int i = 1; i <= len && i < n; i++)
+            {
+                A(i, i) = 8.0L;
+                if (i + 1 <= len && i + 1 < n)
+                    A(i, i + 1) = A(i + 1, i) = off;
+            }
+            for (int i = len + 1; i < n; i++)
+                A(i, i) = -5.0L + 10.0L * (LD)(i - len) / (LD)(n - len) + 0.01L * r.sym();
+            for (int i = 0; i < n; i++)
+                for (int j = 0; j < i; j++)
+                    if (A(i, j) == 0)
+                        A(i, j) = A(j, i) = 0.001L * r.sym();
+            nev = 2;
+            rule = 0;
+        }
         // SmallestMagn on a spectrum that straddles zero asks for INTERIOR eigenvalues, which the diagonal-preconditioned Davidson
         // iteration does not reliably deliver on the unchanged tree (recorded finding on a fixed case); the random profile keeps
         // SmallestMagn for one-signed spectra
@@ -802,7 +845,7 @@ static void mode_davidson(const Desc& d)
             rule = 7;
         double tol = (c % 2) ? 1e-6 : 1e-9;
         const int guess = (c % 6 == 5) ? 1 : 0;
-        if (c % 8 == 4 && !d.i("dec", 0))
+        if (c % 8 == 4 && !d.i("dec", 0) && !opp)
         {
             // a tolerance tighter than the default of compute_with_guess(), on a matrix of norm about one so that it is attainable
             A /= (LD) n;
@@ -815,7 +858,7 @@ static void mode_davidson(const Desc& d)
             corr = nev;
             maxs = init + corr * (1 + r.below(3));   // small maximal space: restarts happen
         }
-        const bool twice = (c % 8 == 3);
+        const int twice = (c % 16 == 11) ? 2 : ((c % 8 == 3) ? 1 : 0);
         if (c % 8 == 6 && nev >= 2)
         {
             // correction size below nev (legal: initial + correction <= n): every one of the nev pairs must still be converged
